@@ -135,6 +135,12 @@ func C06(tier Tier) int {
 		if own > 0 {
 			cands = append(cands, own-1)
 		}
+		if sc.name == "all-1" {
+			// with unit prices every per-byte component is a window one unit wide: sweep them all
+			for d := uint64(2); d <= 64 && d <= total; d++ {
+				cands = append(cands, total-d)
+			}
+		}
 		if tier.Thorough() {
 			for d := uint64(2); d < 40; d++ {
 				if total >= d {
